@@ -463,7 +463,13 @@ class Interp:
             elif op == 'Not' and (e.get('ty') or 'bool') != 'bool':
                 # bitwise complement of an integer
                 if v[0] == 'lit' and isinstance(v[1], int) and not isinstance(v[1], bool):
-                    outs.append(Out('val', ('lit', ~v[1]), o.st))
+                    # exact in the operand's type: on iN `!x` is -x-1 (two's complement), on uN it is (2^N - 1) - x, i.e. the same
+                    # bit pattern read as unsigned - so that `flags |= !C`, `x == !C` on literals are the values the program computes
+                    rng = INT_RANGE.get(hirq.strip_refs(str(e.get('ty') or '')))
+                    r = ~v[1]
+                    if rng is not None and rng[0] == 0:
+                        r &= rng[1]
+                    outs.append(Out('val', ('lit', r), o.st))
                 else:
                     outs.append(Out('val', ('bitnot', v), o.st))
             elif op == 'Not':
